@@ -157,7 +157,8 @@ def run(F, run, tier):
     # concrete tolerances: editing one power must not disturb small but non-zero neighbours (a tolerance-based trim hidden in an edit)
     T = sp.Rational(1, 10 ** 10)
     for label, cs0, tol_, k in (("lead-above-small", [sp.Integer(3), T / 2, sp.Integer(7)], T, 2), ("lead-above-quarter@tol=1/2", [sp.Integer(3), sp.Rational(1, 4), sp.Integer(7)], sp.Rational(1, 2), 2),
-                                ("interior", [sp.Integer(3), sp.Integer(5), T / 2, sp.Integer(7)], T, 1), ("absent-power", [sp.Integer(3), T / 2], T, 4)):
+                                ("interior", [sp.Integer(3), sp.Integer(5), T / 2, sp.Integer(7)], T, 1), ("absent-power", [sp.Integer(3), T / 2], T, 4),
+                                ("small-lead-other-power", [sp.Integer(3), sp.Integer(5), T / 2], T, 0), ("two-small-leads", [sp.Integer(3), sp.Integer(5), T / 2, -T / 4], T, 1)):
         Pm = PI.poly(list(cs0), tol_)
         _, ok = call("purge_coefficient", [Pm, sp.Integer(k)], label, "R13.1")
         if ok:
@@ -178,6 +179,16 @@ def run(F, run, tier):
             cs = PI.coeffs(Pm)
             run.check(len(cs) == len(want) and all(sym.is_zero(u - w) for u, w in zip(cs, want)), "R13.1", "Polynomial::set_coefficient", "exactly-that-power:concrete-tolerance:" + label,
                       F.loc(M["set_coefficient"]), "set_coefficient(%d, 9) on %s with zero tolerance %s leaves %s, expected %s" % (k, [str(x) for x in cs0], tol_, [str(x) for x in cs], [str(x) for x in want]))
+    # a written value is stored as given, however small, also above the current leading power
+    for label, cs0, k, val in (("small-value-at-top", [sp.Integer(3), sp.Integer(5)], 4, T / 2), ("small-value-at-lead", [sp.Integer(3), sp.Integer(5), sp.Integer(7)], 2, T / 2)):
+        Pm = PI.poly(list(cs0), T)
+        _, ok = call("set_coefficient", [Pm, sp.Integer(k), val], label, "R13.1")
+        if ok:
+            want = list(cs0) + [0] * max(0, k + 1 - len(cs0))
+            want[k] = val
+            cs = PI.coeffs(Pm)
+            run.check(len(cs) == len(want) and all(sym.is_zero(u - w) for u, w in zip(cs, want)), "R13.1", "Polynomial::set_coefficient", "stores-the-value:" + label,
+                      F.loc(M["set_coefficient"]), "set_coefficient(%d, %s) on %s with zero tolerance %s leaves %s, expected %s" % (k, val, [str(x) for x in cs0], T, [str(x) for x in cs], [str(x) for x in want]))
     # complex coefficients: the negligibility test must look at both parts
     for n in (2, 3, 4):
         for kind, cs in (("imaginary-lead", PI.with_imaginary_lead("a", n)), ("complex", PI.csymbols("a", n))):
